@@ -3321,6 +3321,9 @@ namespace bloch::runtime {
                 throw BlochError(ErrorCategory::Runtime, aassign->line, aassign->column,
                                  "index must be numeric");
             Value rhs = eval(aassign->value.get());
+            // the index or the value may themselves have written to this array (b[0] = b[1] = 7,
+            // or a method updating the same field): store into its current contents
+            arr = lookup(var->name);
             switch (arr.type) {
                 case Value::Type::IntArray:
                     if (i < 0 || i >= static_cast<int>(arr.intArray.size()))
@@ -3433,7 +3436,7 @@ namespace bloch::runtime {
                                      "assignment into this array type is unsupported");
             }
             assign(var->name, arr);
-            return arr;
+            return rhs;  // like every assignment expression: the assigned value, not the array
         }
         return {};
     }
